@@ -100,7 +100,7 @@ def run(env, res):
                 'None/0/\'\'/False/[]/{}, 12% with a malformed group body or sequence item, 35% written in another '
                 'yaml layout: flow style, JSON, first step on line 1, other indentation); a case is '
                 'non-trivial when the model accepts it and it terminates; distinct by canonical program text')
-    directed = [('c04', fo.c04_family, env.n(200, 100000))]
+    directed = [('c04', fo.c04_family, env.n(200, 100000)), ('c04-in', fo.c04_in_family, env.n(87, 100000))]
     flowcheck.run_streams(env, res, directed, env.n(500, 100000), weights={'fail': 5, 'set': 2},
                           random_monitor=flowcheck.monitor_all)
 
